@@ -78,6 +78,10 @@ CHECKS["C20"] = dict(level="exploration", ref="DESIGN.md §5 C20",
    technique="generated container histories; independent validator: every stored object (found by the raw-tree auditor) is validated with jsonschema Draft-07 against the JSON Schema embedded in the container; embedded parent chains / provider records compared with the plugin system and with the container's public TOC answers, live and after reopen",
    text="Generated search; validity is decided by an independent JSON Schema implementation, the description data by differential comparison embedded-vs-plugin-system-vs-public-API. Bounded history length; schema pool of 11 accesses incl. a harness family with several versions and 3-level inheritance.",
    note=TB + "; jsonschema 4.26 (Draft7Validator) is trusted")
+CHECKS["C17"] = dict(level="exploration", ref="DESIGN.md §5 C17",
+   technique="generated byte strings at boundary lengths / NUL-rich / marker-like contents embedded with pack_file on three drivers, followed by generated journeys (patch boundary, reopen, copy, move, second embedding from the same path, merge); round-trip oracle on bytes and differential against hashlib/len for the attached file metadata; marker rejection with raw-tree-unchanged oracle",
+   text="Generated search; bytes and metadata are compared with the source after every journey step for the node and all its copies, incl. the merged record. The one reserved value must be rejected on IH5 without traces.",
+   note=TB + "; libmagic decides the mime type (not asserted)")
 NOT_YET = {}
 def main():
     props = [json.loads(l) for l in open(os.path.join(HERE, "properties.jsonl"))]
